@@ -70,7 +70,7 @@ func runBatch(specPath string) int {
 
 // ---------- generator ----------
 
-var endings = []string{"pass", "pass", "fail", "skip", "stop", "setupfail", "fail-early", "fail-wait"}
+var endings = []string{"pass", "pass", "fail", "skip", "stop", "setupfail", "fail-early", "fail-wait", "tskip", "tfail"}
 
 func genBatch(r *rand.Rand, dir string, idx int) batchSpec {
 	n := 2 + r.Intn(11)
@@ -119,6 +119,12 @@ func genBatch(r *rand.Rand, dir string, idx int) batchSpec {
 		if sp.Ending == "fail-wait" {
 			jobs = 0 // a plain wait would block on them: this ending starts its own jobs
 		}
+		// tskip / tfail: a custom command ends the run through the script's T directly (Skip / FailNow, as a
+		// helper that was handed env.T() does) while jobs are running, one of them slow to die
+		tAbort := sp.Ending == "tskip" || sp.Ending == "tfail"
+		if tAbort && jobs == 0 {
+			jobs = 1
+		}
 		// a named job that ends by itself, started before the others and waited for by name while they are
 		// still running: the others stay this run's to stop and reap
 		namedFirst := jobs > 0 && r.Intn(2) == 0
@@ -127,7 +133,7 @@ func genBatch(r *rand.Rand, dir string, idx int) batchSpec {
 		}
 		for j := 0; j < jobs; j++ {
 			pf := filepath.Join(spec.PidDir, fmt.Sprintf("%s-%d", tok, j))
-			if r.Intn(3) == 0 && sp.Ending != "skip" {
+			if (r.Intn(3) == 0 && sp.Ending != "skip") || (tAbort && j == 0) {
 				// slow to die: exits 150 ms after the interrupt (status depends on timing: never used before skip)
 				fmt.Fprintf(&sb, "exec vhelper slowint %s 150 &\n", pf)
 			} else {
@@ -172,6 +178,10 @@ func genBatch(r *rand.Rand, dir string, idx int) batchSpec {
 			} else {
 				sb.WriteString("exists no-such-file\n")
 			}
+		case "tskip":
+			sb.WriteString("t-abort skip\n")
+		case "tfail":
+			sb.WriteString("t-abort fail\n")
 		case "skip":
 			sb.WriteString("skip 'not now'\n")
 		case "stop":
@@ -271,7 +281,7 @@ func main() {
 		return
 	}
 	vlib.Main("C04", "exploration", 12*time.Minute, func(r *vlib.Run) {
-		r.Rule("batches of 2-12 generated scripts per RunT call (explicit files incl. duplicate base names from different directories), each script: listing of $WORK first, child-process environment, own variable / file / sub-directory / background jobs (SIGINT-terminable and slow-to-die), a rendezvous at which all parallel scripts overlap, ownership re-check, read-only trees (0555/0444), three defer marks; endings pass / fail early / fail late (a missing file, or a background start under a name a live job still holds) / failing plain wait with later jobs still running / skip / stop / failing Setup; retention none / TestWork / WorkdirRoot; both T styles; every batch runs twice (parallel with subtests released after RunT returned, and one script at a time) with a recording T, and every second batch a third time on the real *testing.T (a test binary built from checks/c04/realt), each in a process of its own as uid 65534 or root. Non-trivial/distinct = distinct (ending multiset, retention, mode, uid) batches in which the rendezvous completed.")
+		r.Rule("batches of 2-12 generated scripts per RunT call (explicit files incl. duplicate base names from different directories), each script: listing of $WORK first, child-process environment, own variable / file / sub-directory / background jobs (SIGINT-terminable and slow-to-die), a rendezvous at which all parallel scripts overlap, ownership re-check, read-only trees (0555/0444), three defer marks; endings pass / Skip or FailNow called on the script's T by a custom command while a slow-to-die job runs / fail early / fail late (a missing file, or a background start under a name a live job still holds) / failing plain wait with later jobs still running / skip / stop / failing Setup; retention none / TestWork / WorkdirRoot; both T styles; every batch runs twice (parallel with subtests released after RunT returned, and one script at a time) with a recording T, and every second batch a third time on the real *testing.T (a test binary built from checks/c04/realt), each in a process of its own as uid 65534 or root. Non-trivial/distinct = distinct (ending multiset, retention, mode, uid) batches in which the rendezvous completed.")
 		r.Assume("grandchildren of started processes are not tracked; background helpers always die on SIGINT (possibly 150 ms late)")
 		base := vlib.Scratch()
 		os.Chmod(base, 0o777)
@@ -449,7 +459,7 @@ func main() {
 					if fmt.Sprint(sr.Defers) != fmt.Sprint(want) {
 						mk("deferred-functions", sp.Name, fmt.Sprintf("deferred functions ran as %v, registered order demands %v (ending %s)", sr.Defers, want, sp.Ending), sr.Log)
 					}
-					wantV := map[string]string{"pass": "pass", "fail": "fail", "fail-early": "fail", "fail-wait": "fail", "skip": "skip", "stop": "pass", "setupfail": "fail"}[sp.Ending]
+					wantV := map[string]string{"pass": "pass", "fail": "fail", "fail-early": "fail", "fail-wait": "fail", "skip": "skip", "stop": "pass", "setupfail": "fail", "tskip": "skip", "tfail": "fail"}[sp.Ending]
 					if sr.Verdict != wantV {
 						mk("wrong-verdict", sp.Name, fmt.Sprintf("ending %q must be reported as %s, got %s", sp.Ending, wantV, sr.Verdict), sr.Log)
 					}
